@@ -5,11 +5,11 @@ rows = []
 for m in sorted(glob.glob("/verif/seeded/*/meta.json")):
     x = json.load(open(m))
     text = x["breaks"]
-    first = re.split(r"\. (?:Initially|First answer|Caught|C\d\d initially)", text)[0].rstrip(".")
+    first = re.split(r"\. (?:Initially|First answer|Caught|Missed|C\d\d initially)", text)[0].rstrip(".")
     if len(first) > 170:
         first = first[:167] + "..."
     when = "as delivered"
-    if "initially" in text.lower() or "First answer" in text or "after strengthening" in text.lower():
+    if "initially" in text.lower() or "First answer" in text or "after strengthening" in text.lower() or "missed as delivered" in text.lower():
         when = "after strengthening"
     rows.append("| %s | %s | %s | %s |" % (x["id"], first.replace("|", "/"), ", ".join(x["detected_by"]) or "NOT DETECTED", when))
 n = len(rows)
